@@ -261,3 +261,101 @@ def random_order(rng, counts):
     seq = [i for i, c in enumerate(counts) for _ in range(c)]
     rng.shuffle(seq)
     return tuple(seq)
+
+
+# ---------------------------------------------------------------------------
+# module-body races: 2-3 tasks import the SAME template for the first time in a
+# brand-new environment; the imported template's top-level body awaits a gated
+# async environment global (``mg``) before / between / after its macro and
+# variable definitions, so a task can be suspended INSIDE the module body while
+# another task reaches its own import of that module.
+#
+# ``mg`` returns a value that does not depend on the calling task: the module
+# of an import without context is cached per environment by documented design,
+# so whichever task evaluates the body, the exported names are the same.
+MLIB2 = "{% set w = 'W' ~ mg('w') %}{% macro z(x) %}({{ x }}{{ w }}){% endmacro %}"
+
+
+def gen_modlib(rng, max_gates, nested):
+    """-> source of mlib.j2: definitions m1, m2 (macros), v1, v2 (variables) in
+    this order with 1..max_gates gate calls placed before / between / after."""
+    gated_v1 = rng.random() < 0.5
+    gated_v2 = rng.random() < 0.5
+    defs = [
+        "{% set v1 = 'V' ~ mg('v1') %}" if gated_v1 else "{% set v1 = 'V1' %}",
+        "{% macro m1(x) %}[{{ x }}|{{ v1 }}]{% endmacro %}",
+        ("{% macro m2(x, y='d') %}<{{ Z.z(x) }}{{ y }}>{% endmacro %}" if nested
+         else "{% macro m2(x, y='d') %}<{{ x }}{{ y }}>{% endmacro %}"),
+        "{% set v2 = mg('v2') ~ 'v' %}" if gated_v2 else "{% set v2 = 'V2' %}",
+    ]
+    ngates = int(gated_v1) + int(gated_v2)
+    slots = [[] for _ in range(len(defs) + 1)]
+    if nested:
+        slots[rng.randint(0, 2)].append("{% import 'mlib2.j2' as Z %}")
+        ngates += 1
+    k = 0
+    while ngates < 1 or (ngates < max_gates and rng.random() < 0.5):
+        k += 1
+        slots[rng.randint(0, len(defs))].append("{{ mg('b%d') }}" % k)
+        ngates += 1
+    out = []
+    for i, d in enumerate(defs):
+        out.extend(slots[i])
+        out.append(d)
+    out.extend(slots[-1])
+    return "".join(out), ngates
+
+
+MOD_USES = {
+    "import": ("{% import 'mlib.j2' as L %}",
+               ["{{ L.m1(name) }}", "{{ L.v1 }}", "{{ L.m2(name) }}", "{{ L.v2 }}",
+                "{{ L.m2(1, y=L.v1) }}", "{{ L.v1 is defined }}{{ L.m1 is defined }}"]),
+    "from-import": ("{% from 'mlib.j2' import m1, m2 as mm, v1, v2 %}",
+                    ["{{ m1(name) }}", "{{ v1 }}", "{{ mm(name) }}", "{{ v2 }}",
+                     "{{ mm(2, y=v2) }}", "{{ v2 is defined }}{{ mm is defined }}"]),
+}
+
+
+def gen_modmain(rng, tpls, idx):
+    """-> (label, source) of one main template that imports mlib.j2."""
+    form = rng.choice(["import", "from-import", "include-importer", "include-importer",
+                       "import", "from-import", "import-in-block"])
+    how = rng.choice(["import", "from-import"]) if form in ("include-importer", "import-in-block") \
+        else form
+    head, uses = MOD_USES[how]
+    picked = [u for u in uses if rng.random() < 0.6] or [uses[0]]
+    # a task gate between the uses: the task is suspended while holding the module
+    if rng.random() < 0.6:
+        picked.insert(rng.randint(0, len(picked)), "{{ g('a') }}")
+    pre = "{{ name }}{{ g('pre') }}" if rng.random() < 0.5 else "{{ name }}"
+    if form == "include-importer":
+        inc = "minc%d.j2" % idx
+        tpls[inc] = head + "".join(picked)
+        body = pre + "{% include '" + inc + "' %}" + "{{ g('post') }}{{ name }}"
+    elif form == "import-in-block":
+        body = pre + "{% block b %}" + head + "".join(picked) + "{% endblock %}{{ name }}"
+    else:
+        body = pre + head + "".join(picked) + "{{ name }}"
+    label = "module-race-" + form + ("(" + how + ")" if how != form else "")
+    return label, body
+
+
+def gen_modcase(rng):
+    ntasks = rng.choice([2, 2, 2, 3])
+    nested = ntasks == 2 and rng.random() < 0.3
+    lib, ngates = gen_modlib(rng, 3 if ntasks == 2 else 2, nested)
+    tpls = {"mlib.j2": lib}
+    if nested:
+        tpls["mlib2.j2"] = MLIB2
+    mains = []
+    for mi in range(rng.randint(1, ntasks)):
+        lab, src = gen_modmain(rng, tpls, mi)
+        name = "mm%d.j2" % mi
+        tpls[name] = lab + LAB + src
+        mains.append(name)
+    names = ["<A&1>", "B\"2'", "C>3<"]
+    tasks = []
+    for t in range(ntasks):
+        tasks.append({"main": mains[t] if t < len(mains) else rng.choice(mains), "name": names[t]})
+    return {"kind": "modrace", "tpls": tpls, "tasks": tasks, "autoescape": rng.random() < 0.3,
+            "module_gates": ngates}
